@@ -60,6 +60,9 @@ EXPLANATION = (
     "nothing: the counters of the stuck test are executed symbolically for four passes as polynomials in the numbers r_j of "
     "equations resolved per pass, and the break condition of pass j must be unsatisfiable with r_1..r_j >= 1 (counter on the "
     "pending collection, on a result list, a per-pass difference or a progress flag).  "
+    "R12 the local container that is filled inside the loop over the sources of one input variable (CircuitIR._collect_ops) is "
+    "created or cleared on every path from the start of an iteration of the enclosing loop over the operator's input variables "
+    "to that source loop (private helpers spliced in), so no input variable inherits the sources of an earlier one.  "
     "R4, R7, R3 and R10 look at functions with their private helpers spliced in (engine.inline) whenever the construct and its "
     "guard may have been put into different functions; a construct is then judged at every call site.  "
     "R5 (state layout loops) is implemented as C12-R2 in rules/c12.py and registered here when that module provides it.  "
@@ -2716,3 +2719,133 @@ def _r11_condition(ctx, rid, f, test, breaks_when_true: bool, env, ev, Flag):
 
 
 RULES.append(("C01-R11", r11_sorter_gives_up_only_without_progress, 1))
+
+
+# ================================================================================================
+# R12 the container that collects the sources of one input variable is fresh for every input variable
+# ================================================================================================
+
+CONTAINER_CTORS = ("dict", "list", "set", "OrderedDict", "defaultdict")
+
+
+def _is_container_creation(v: Optional[ast.AST]) -> bool:
+    return isinstance(v, (ast.Dict, ast.List, ast.Set, ast.DictComp, ast.ListComp, ast.SetComp)) or \
+        (isinstance(v, ast.Call) and call_name(v) in CONTAINER_CTORS)
+
+
+def _r12_instances(ctx, f):
+    """Loops over the sources of an input variable (`for … in <x>['sources']`) in function / view f, with the enclosing loop over
+    the operator's input variables and the local containers filled inside the source loop:
+    [dict(pos, LS, LV, collectors: {name: [store nodes]})]."""
+    out = []
+    for LS in [n for n in walk_shallow(f.node) if isinstance(n, ast.For)]:
+        subs = [n for n in ast.walk(LS.iter) if isinstance(n, ast.Subscript) and isinstance(n.slice, ast.Constant) and n.slice.value == "sources"]
+        if not subs:
+            continue
+        base = subs[0].value
+        while isinstance(base, ast.Subscript):
+            base = base.value
+        base_name = base.id if isinstance(base, ast.Name) else None
+        LV = None
+        for a in _anc(LS):
+            if a is f.node:
+                break
+            if isinstance(a, ast.For) and (
+                    (base_name is not None and base_name in target_names(a.target))
+                    or any(isinstance(n, ast.Subscript) and isinstance(n.slice, ast.Constant) and n.slice.value == "inputs" for n in ast.walk(a.iter))):
+                LV = a
+                break
+        own_defs = {nm for st in ast.walk(LS) if isinstance(st, ast.stmt) and st is not LS and in_body(LS, st) for nm in target_names_of_stmt(st)}
+        own_defs |= set(target_names(LS.target))
+        cols: Dict[str, list] = {}
+        for n in ast.walk(LS):
+            if not in_body(LS, n):
+                continue
+            nm = None
+            if isinstance(n, ast.Subscript) and isinstance(n.ctx, ast.Store) and isinstance(n.value, ast.Name):
+                nm = n.value.id
+            elif isinstance(n, ast.Call) and isinstance(n.func, ast.Attribute) and isinstance(n.func.value, ast.Name) \
+                    and n.func.attr in ("append", "add", "update", "setdefault", "extend", "insert"):
+                nm = n.func.value.id
+            if nm is None or nm in own_defs or nm == f.self_name:
+                continue
+            cols.setdefault(nm, []).append(n)
+        # keep local containers (and parameters: judged in the callers)
+        rd = ctx.rd(f)
+        keep = {}
+        for nm, stores in cols.items():
+            defs = rd.defs_reaching_at(LS, nm)
+            if not defs:
+                continue                        # a global / free name
+            vals = [assigned_value(d, nm) if not isinstance(d, ast.arguments) else None for d in defs]
+            if any(isinstance(d, ast.arguments) for d in defs) or any(_is_container_creation(v) for v in vals):
+                keep[nm] = stores
+        if keep:
+            out.append(dict(pos=(LS.lineno, LS.col_offset), LS=LS, LV=LV, collectors=keep))
+    return out
+
+
+def r12_source_collector_is_fresh_per_input_variable(ctx, rid):
+    """CircuitIR._collect_ops gathers, for every input variable of an operator, the sources that feed it, and hands that
+    collection to the helper that builds the summed input term.  Necessary: the collection of one input variable holds only that
+    variable's sources — on every path from the start of an iteration of the loop over input variables to the loop over its
+    sources the container is created or cleared.  A container created outside the loop over input variables carries the sources
+    of an earlier variable into a later one (its input becomes the sum of both variables' connections).
+    Decided by where the container filled inside the source loop is (re)created relative to the enclosing loop over the input
+    variables — with private helpers spliced in, so that extracted collection code is judged inside its caller."""
+    funcs = ctx.repo.all_functions([IR])
+    seen: Dict[tuple, list] = {}
+    for f0 in funcs:
+        views = [f0] + ([_view(ctx, f0)] if _view(ctx, f0) is not f0 else [])
+        for fv in views:
+            for inst in _r12_instances(ctx, fv):
+                seen.setdefault(inst["pos"], []).append((f0, fv, inst))
+    n = 0
+    for pos, entries in sorted(seen.items()):
+        owner = next((e for e in entries if e[0].node.lineno <= pos[0] <= (e[0].node.end_lineno or e[0].node.lineno) and e[1] is e[0]), entries[0])
+        with_lv = [e for e in entries if e[2]["LV"] is not None]
+        if not with_lv:
+            raise AnalysisError(f"{rid}: {owner[0].qual}: the loop over the sources `{norm(owner[2]['LS'])}` is not nested (also not through "
+                                f"private helpers) in a loop over the operator's input variables (unrecognised form)")
+        # judge in the outermost context that shows the loop over input variables (one per function that contains it)
+        judged = {}
+        for f0, fv, inst in with_lv:
+            if f0 not in judged or fv is not f0:
+                judged[f0] = (fv, inst)
+        if owner[0] in judged:
+            judged = {owner[0]: judged[owner[0]]}       # both loops live in one function: its callers add nothing
+        for f0, (fv, inst) in sorted(judged.items(), key=lambda kv: kv[0].qual):
+            cfg, rd = ctx.cfg(fv), ctx.rd(fv)
+            LS, LV = inst["LS"], inst["LV"]
+            for nm, stores in sorted(inst["collectors"].items()):
+                def is_reset(node, nm=nm):
+                    if isinstance(node, (ast.Assign, ast.AnnAssign)) and nm in target_names_of_stmt(node):
+                        v = assigned_value(node, nm)
+                        return v is None or _is_container_creation(v) or isinstance(v, ast.Call)
+                    return isinstance(node, ast.Expr) and isinstance(node.value, ast.Call) and isinstance(node.value.func, ast.Attribute) \
+                        and node.value.func.attr == "clear" and isinstance(node.value.func.value, ast.Name) and node.value.func.value.id == nm
+                defs = rd.defs_reaching_at(LS, nm)
+                if any(isinstance(d, ast.arguments) for d in defs):
+                    raise AnalysisError(f"{rid}: {f0.qual}: the container `{_plain(nm)}` filled in `{_plain(norm(LS))}` is a parameter "
+                                        f"(its creation is outside the analysed context)")
+                path = cfg.reachable_avoiding(LV, LS, is_reset)
+                n += 1
+                label = f"source collector `{_plain(nm)}` of one input variable"
+                facts = {"collector": _plain(nm), "filled_in": _plain(norm(LS)), "input_variable_loop": _plain(norm(LV)),
+                         "created_by": sorted({_plain(norm(d)) for d in defs})}
+                if path is None:
+                    ctx.ok(rid, f0, LS, f"`{_plain(nm)}` is created / cleared on every path from the start of an iteration of "
+                                        f"`{_plain(norm(LV))}` to the loop over the variable's sources", facts, label=label)
+                else:
+                    outside = [d for d in defs if not contains(LV, d)]
+                    where = (f"it is created by `{_plain(norm(outside[0]))}` outside `{_plain(norm(LV))}`" if outside else
+                             f"the path {cfg.path_str(path)} re-uses the container of the previous iteration")
+                    ctx.violation(rid, f0, LS,
+                                  f"`{_plain(nm)}` collects the sources of one input variable inside `{_plain(norm(LV))}`, but {where} and is "
+                                  f"not reset at the start of every iteration: whatever an earlier input variable left in it (a "
+                                  f"multi-source variable leaves all its sources) is handed on as sources of the next input variable, "
+                                  f"whose input term then also sums the other variable's connections", facts, label=label)
+    ctx.require(n >= 1, f"{rid}: no per-input-variable source collection (`for … in inp['sources']` filling a local container) found in {IR}")
+
+
+RULES.append(("C01-R12", r12_source_collector_is_fresh_per_input_variable, 1))
